@@ -181,8 +181,9 @@ def eventOutput (sc : SCfg) (c : StdCfg) (find : Oracle) (count total : Nat) (ev
   | .contextBreak => writeContextSeparator sc.lt c
   | ev => writeSearchPrelude sc.lt c count total ++ (eventRecords sc c find ev).flatMap (printRecord c)
 
-/-- The guard forced by the slow multi-line path, which prints `line-without-terminator ++ terminator`:
-under `--crlf` a line of the block that ends in a bare `\n` would be rewritten to `\r\n`. -/
+/-- Under `--crlf`, a line that ends in a bare `\n` (no `\r` before it). Only the `-U --only-matching` path, which
+prints `piece-without-terminator ++ terminator`, still needs this (the other slow multi-line paths keep a line's own
+terminator since b0493c8). -/
 def crlfLineOk (lt : LineTerm) (line : Bytes) : Bool :=
   match lt with
   | .byte _ => true
@@ -192,16 +193,9 @@ def crlfLineOk (lt : LineTerm) (line : Bytes) : Bool :=
     | 10 :: _ => false
     | _ => true
 
-/-- Guard of `C09_standard` for one event: no only-matching; in the slow multi-line path no bare-LF line
-under `--crlf`. -/
-def eventGuard (sc : SCfg) (c : StdCfg) (find : Oracle) (ev : Event) : Bool :=
-  !c.onlyMatching &&
-  (match ev with
-   | .matched buf rs re _ _ =>
-     if sc.multiLine && !(eventSpans sc c find ev).isEmpty then
-       (splitLines sc.lt.asByte (slice buf rs re)).all (crlfLineOk sc.lt)
-     else true
-   | _ => true)
+/-- Guard of `C09_standard` for one event: no only-matching (nothing else since the repair of F19). -/
+def eventGuard (_sc : SCfg) (c : StdCfg) (_find : Oracle) (_ev : Event) : Bool :=
+  !c.onlyMatching
 
 /-! ### Counting specs (C10) -/
 
